@@ -157,6 +157,9 @@ inline std::vector<Expected> PassiveParser::parse(const std::vector<RxSym>& in) 
         }
       }
       if (in[pos].b == SYN) { hitSyn = true; nTruncSyn++; invalid = true; return false; }
+      // a symbol whose timing ebusd could not observe faithfully (its thread was stalled, bytes were discarded):
+      // ebusd's deadline may have expired by the time it looked at it, the telegram is not decided
+      if (in[pos].fuzzy) either = true;
       *b = in[pos].b;
       if (ownSym) *ownSym = in[pos].own;
       lastT = in[pos].t;
